@@ -578,6 +578,8 @@ def known_map(chk):
 
 
 def main(tier):
+    from pyvc import engine as _E
+    _E.SECOND_SOLVER = (tier == 'thorough')
     chk = report.Check('C01', tier, level='proof',
                        technique='contract-based deductive verification: Hoare triples per RPC, VCs generated from the real AST, z3')
     for t in ('pyvc VC generator and its Python/protobuf models (DESIGN 2, 4)', 'z3 5.1.0',
